@@ -17,10 +17,10 @@ def families(ctx):
     g = lc.gen_cfg
     return [
         ("hold1f", 1, g(1, 26, 1, "C13Faults", 3, "TRUE", "RemotesNone", 170, 2, "FALSE", 0)),
-        ("hold1w", 1, g(1, 26, 1, "WriteFaults", 2, "FALSE", "RemotesNone", 170, 2, "FALSE", 0, 12)),
-        ("down1", 1, g(1, 26, 1, "C13Faults", 1, "FALSE", "RemotesNone", 170, 2, "FALSE", 0, 60)),
+        ("hold1w", 1, g(1, 26, 0, "WriteFaults", 2, "FALSE", "RemotesNone", 170, 2, "FALSE", 0, 12)),
+        ("down1", 1, g(1, 26, 0, "C13Faults", 1, "FALSE", "RemotesNone", 170, 2, "FALSE", 0, 60)),
         ("hold2f", 2, g(2, 24, 1, "C13Faults", 3, "TRUE", "RemotesNone", 200, 2, "TRUE", 8)),
-        ("quiet1", 1, g(1, 26, 1, "NoFaults", 0, "TRUE", "RemotesNone", 170, 2, "FALSE", 0)),
+        ("quiet1", 1, g(1, 26, 0, "NoFaults", 0, "TRUE", "RemotesNone", 170, 2, "FALSE", 0)),
     ]
 
 
@@ -52,7 +52,7 @@ def signature(r, diag, i, k):
 def run(ctx):
     per_family = ctx.pick(70, 1200)
     with cf.ThreadPoolExecutor(max_workers=2) as ex:
-        fd = ex.submit(lc.design_runs, ctx, ctx.pick(["hold1_long"], ["hold1_long", "hold1", "hold2"]),
+        fd = ex.submit(lc.design_runs, ctx, ctx.pick(["hold1_long"], ["hold1_long", "hold1"]),
                        {"hold1_removefirst": ["InvHolderHasFile"], "hold1_blocking_emit": ["InvNotStaleEmit"]})
         fg = ex.submit(lc.generate, ctx, families(ctx), per_family)
         scheds = fg.result()
